@@ -67,8 +67,53 @@ func runC30RotateUpdate(c *Ctx) {
 		}
 		return p.instrPos(in)
 	}
-	c.verdictIf(keepsCell, P, "rotate-update", "fn=UpdatePolicyOptions new-TLS takes-over-cell", pos(cellAt), "a TLSConfig supplied by the update takes over the previous certificate cell",
-		"a policy update that carries TLS settings stores a TLSConfig whose certificate cell is not the one the running listener reads: ReloadCertificates on GetExportOptions().TLS then succeeds but new handshakes keep presenting the old certificate")
+	why := "a policy update that carries TLS settings stores a TLSConfig whose certificate cell is not the one the running listener reads: ReloadCertificates on GetExportOptions().TLS then succeeds but new handshakes keep presenting the old certificate"
+	if keepsCell {
+		// the take-over may depend only on the presence of the things it copies (new TLS settings, the previous
+		// TLSConfig, its cell) and on whatever the publication of the policy itself depends on
+		var publish ssa.Instruction
+		for _, call := range calls(upo) {
+			if cc, ok := call.(*ssa.Call); ok && atomicPtrOp(cc, "Store") && len(cc.Call.Args) > 0 && isMutexField(cc.Call.Args[0], "policy") {
+				publish = call
+			}
+		}
+		common := map[*ssa.If]bool{}
+		if publish != nil {
+			for _, e := range controlEdges(publish.Block()) {
+				common[e] = true
+			}
+		}
+		for _, ifi := range controlEdges(cellAt.Block()) {
+			if common[ifi] {
+				continue
+			}
+			okCond := false
+			cond, _ := stripNot(ifi.Cond)
+			if bo, isB := cond.(*ssa.BinOp); isB {
+				for _, pair := range [][2]ssa.Value{{bo.X, bo.Y}, {bo.Y, bo.X}} {
+					if !isNilConst(pair[1]) {
+						continue
+					}
+					v := unwrap(pair[0])
+					if isOldTLS(v) {
+						okCond = true
+					}
+					if u, isU := v.(*ssa.UnOp); isU {
+						if base, lf, isLoad := fieldLoad(u); isLoad && lf != nil {
+							if lf.Name() == "TLS" || (lf.Name() == "currentCert" && isOldTLS(base)) {
+								okCond = true
+							}
+						}
+					}
+				}
+			}
+			if !okCond {
+				keepsCell = false
+				why = "the take-over of the previous certificate cell at " + p.instrPos(cellAt) + " also depends on the test at " + p.instrPos(ifi) + " (" + ifi.Cond.String() + "): when it fails the stored TLSConfig reads a cell the running listener never looks at, and ReloadCertificates on GetExportOptions().TLS no longer reaches new handshakes"
+			}
+		}
+	}
+	c.verdictIf(keepsCell, P, "rotate-update", "fn=UpdatePolicyOptions new-TLS takes-over-cell", pos(cellAt), "a TLSConfig supplied by the update takes over the previous certificate cell", why)
 	c.verdictIf(keepsConfig, P, "rotate-update", "fn=UpdatePolicyOptions no-TLS keeps-previous", pos(cfgAt), "an update without TLS settings keeps the previous TLSConfig",
 		"a policy update without TLS settings stores a nil TLSConfig while the TLS listener keeps running: GetExportOptions().TLS is nil and the documented rotation step cannot be performed")
 }
